@@ -245,6 +245,21 @@ def scaleWeights (s : Rat) (bs : WCData) : WCData := bs.map fun b => b.map fun p
 def ldaDiscriminant (d : Nat) (z m : Nat → Nat → Rat) (logPrior : Nat → Rat) (c : Nat) (x : Nat → Rat) : Rat :=
   rsum d (fun j => x j * z c j) + (-(1 / 2) * rsum d (fun j => m c j * z c j) + logPrior c)
 
+
+/-! ## FisherLDA (`src/Algorithms/FisherLDA.cpp`): only the global mean and the offset are modelled -/
+
+/-- the global mean as `FisherLDA::meanAndScatter` should compute it: `Σ_c n_c·m_c / n` -/
+def fisherMean (bs : CData) (classes : Nat) (j : Nat) : Rat :=
+  rsum classes fun c => classCount bs c * ldaMean bs c j / (count bs : Nat)
+
+/-- within-class scatter `Sw = Σ_i (x_i − m_{c_i})(x_i − m_{c_i})ᵀ` (FisherLDA requires it to be positive definite) -/
+def withinScatter (bs : CData) (i j : Nat) : Rat :=
+  bsum bs fun p => (p.1.at i - ldaMean bs p.2 i) * (p.1.at j - ldaMean bs p.2 j)
+
+/-- the pinned source divides by the number of inputs a second time (`mean /= inputs;`), F-C15-6 -/
+def fisherMeanPinned (bs : CData) (classes : Nat) (j : Nat) : Rat :=
+  fisherMean bs classes j / (count bs : Nat)
+
 /-! ### an executable solver (Gauss–Jordan over `Rat`), used by the driver.
 Nothing is proved about it; the driver checks `A·x = b` on every result. -/
 
